@@ -4,6 +4,7 @@ import (
 	"context"
 	"errors"
 	"fmt"
+	"go/scanner"
 	"log/slog"
 	"math"
 	"runtime"
@@ -500,7 +501,8 @@ func checkRecoverKinds(msg string) string {
 // everyConstructor: errors.Is / errors.As / Unwrap reach the cause through every way of building an *Error.
 func checkIsAs(msg, cmsg string) string {
 	causes := []error{errors.New(cmsg), errSentinel, &customErr{code: 3}, &fwrap{msg: "fw " + cmsg, inner: errSentinel},
-		fmt.Errorf("ctx: %w", errSentinel), errors.Join(errSentinel, errors.New("other"))}
+		fmt.Errorf("ctx: %w", errSentinel), errors.Join(errSentinel, errors.New("other")),
+		structErr{msg: "s " + cmsg}, strErr("t " + cmsg), foreignPlain("int", "i "+cmsg), structErr{}, strErr(""), intErr(0)}
 	for ci, c := range causes {
 		built := map[string]*errs.Error{
 			"NewWithCause":  makeCause(msg, c),
@@ -536,7 +538,7 @@ func checkIsAs(msg, cmsg string) string {
 			if !errors.Is(e, c) {
 				return fmt.Sprintf("FAIL errors.Is through %s does not reach cause %d", name, ci)
 			}
-			if ci >= 3 && !errors.Is(e, errSentinel) {
+			if ci >= 3 && ci <= 5 && !errors.Is(e, errSentinel) {
 				return fmt.Sprintf("FAIL errors.Is through %s does not reach the sentinel inside cause %d", name, ci)
 			}
 			var ce *customErr
@@ -557,6 +559,97 @@ func checkIsAs(msg, cmsg string) string {
 		var ep *errs.Error
 		if errors.Unwrap(e) != nil || !errors.Is(e, e) || !errors.As(e, &ep) || ep != e || errors.Is(e, errSentinel) {
 			return "FAIL errors.Is/As/Unwrap on " + name
+		}
+	}
+	return ""
+}
+
+// checkNilKinds: a typed nil of EVERY nilable kind is nil for every entry point that asks, in every argument position;
+// non-nil values of the same types and values of types that cannot be nil (zero values included) are errors and are kept.
+// The expectation comes from the harness's own type switch, not from the library's helper.
+func checkNilKinds(msg string) string {
+	var nils []error
+	for _, k := range nilKinds {
+		nils = append(nils, foreignNil(k))
+	}
+	nils = append(nils, (*errs.Error)(nil), (*customErr)(nil))
+	real := []error{foreignPlain("slice", msg), foreignPlain("slice0", ""), foreignPlain("map", msg), mapErr{}, foreignPlain("func", msg),
+		foreignPlain("chan", msg), structErr{msg: msg}, structErr{}, strErr(msg), strErr(""), foreignPlain("int", msg), intErr(0),
+		scanner.ErrorList{&scanner.Error{Msg: msg}}, scanner.ErrorList{}}
+	for i, nv := range nils {
+		name := fmt.Sprintf("typed nil #%d (%T)", i, nv)
+		if errs.Wrap(nv) != nil {
+			return "FAIL Wrap(" + name + ") is not nil"
+		}
+		if errs.WrapTyped(nv) != nil {
+			return "FAIL WrapTyped(" + name + ") is not nil"
+		}
+		if e := errs.NewWithCause(msg, nv); errors.Unwrap(e) != nil || strings.Contains(fmt.Sprintf("%v", e), "Caused by") && !strings.Contains(msg, "Caused by") {
+			return "FAIL NewWithCause kept " + name + " as a cause"
+		}
+		if e := errs.NewWithCausef(nv, "%s", msg); errors.Unwrap(e) != nil {
+			return "FAIL NewWithCausef kept " + name + " as a cause"
+		}
+		if errs.Append(nv) != nil || errs.Append(nil, nv) != nil || errs.Append(nv, nv, nil, nv) != nil || errs.Append(&errs.Error{}, nil, nv) != nil {
+			return "FAIL Append of only " + name + " is not nil"
+		}
+		// in every position of an argument list with real errors around it
+		for pos := 0; pos <= 3; pos++ {
+			args := []error{errors.New("a"), errs.New("b"), structErr{msg: "c"}}
+			args = append(args[:pos], append([]error{nv}, args[pos:]...)...)
+			for _, acc := range []error{nil, errs.New("acc"), errors.New("pacc"), nv, &errs.Error{}} {
+				want := 3
+				if acc != nil && !isNilish(acc) {
+					if ae, ok := acc.(*errs.Error); !ok || len(ae.WrappedErrors()) == 0 || ae.Message() != "" {
+						want = 4
+					}
+				}
+				r := errs.Append(acc, args...)
+				if r == nil || r.Count() != want || len(r.WrappedErrors()) != want {
+					return fmt.Sprintf("FAIL Append with %s at position %d (accumulator %T): Count %d, want %d", name, pos, acc, r.Count(), want)
+				}
+				for _, w := range r.WrappedErrors() {
+					if m := fmt.Sprintf("%s", w); strings.HasPrefix(m, "nil-") || m == "foreign-nil" || m == "no errors" {
+						return "FAIL Append kept " + name + " as an error: " + strconv.Quote(m)
+					}
+				}
+			}
+		}
+		c := &capture2{min: slog.LevelDebug}
+		logVia(2, c, false, false, slog.LevelError, nv)
+		if len(c.rec) != 1 || c.rec[0].Message != "" {
+			return "FAIL LogTo(" + name + ") is not treated as a nil error"
+		}
+		var got error
+		recoverWith(func() { panicAny(nv) }, func(err error) { got = err })
+		if e, ok := got.(*errs.Error); !ok || e == nil || errors.Unwrap(e) != nil || e.Error() == "" {
+			return "FAIL Recovery(panic(" + name + ")) kept the typed nil as a cause or does not render"
+		}
+	}
+	for i, rv := range real {
+		name := fmt.Sprintf("non-nil value #%d (%T)", i, rv)
+		want := rv.Error()
+		w, ok := errs.Wrap(rv).(*errs.Error)
+		if !ok || w == nil || w.Message() != want || !sameVal(errors.Unwrap(w), rv) {
+			return "FAIL Wrap(" + name + ") lost the error"
+		}
+		if wt := errs.WrapTyped(rv); wt == nil || wt.Message() != want || !sameVal(errors.Unwrap(wt), rv) {
+			return "FAIL WrapTyped(" + name + ") lost the error"
+		}
+		if e := errs.NewWithCause("m", rv); !sameVal(errors.Unwrap(e), rv) || !strings.HasSuffix(fmt.Sprintf("%v", e), "\n  Caused by: "+want) {
+			return "FAIL NewWithCause dropped or did not render " + name
+		}
+		if e := errs.NewWithCausef(rv, "m"); !sameVal(errors.Unwrap(e), rv) {
+			return "FAIL NewWithCausef dropped " + name
+		}
+		if r := errs.Append(nil, rv); r == nil || r.Count() != 1 || r.Message() != want {
+			return "FAIL Append(nil, " + name + ") lost the error"
+		}
+		if r := errs.Append(rv); r == nil || r.Count() != 1 || !sameVal(errors.Unwrap(r), rv) {
+			return "FAIL Append(" + name + ") lost the error"
+		}
+		if r := errs.Append(errs.New("a"), nil, rv, rv); r.Count() != 3 {
+			return "FAIL Append(a, nil, x, x) with " + name
 		}
 	}
 	return ""
@@ -695,6 +788,8 @@ func runExtra(kind, ckind, msg, cmsg string, n int, cause error) (string, bool) 
 		return "", true
 	case "isas":
 		return checkIsAs(msg, cmsg), true
+	case "nilkinds":
+		return checkNilKinds(msg), true
 	case "recoverkinds":
 		return checkRecoverKinds(msg), true
 	case "logall":
